@@ -79,8 +79,9 @@ where
 			// is valid YAML (e.g. xt's format detection).
 			match event.event_type() {
 				YAML_DOCUMENT_START_EVENT => {
-					let offset = event.start_offset();
-					self.parser.reader_mut().trim_to_offset(offset);
+					let reader = self.parser.reader_mut();
+					let offset = reader.line_start_offset(event.start_offset());
+					reader.trim_to_offset(offset);
 					self.current_document_kind = None;
 					if let Some(doc) = self.last_document.take() {
 						return Some(Ok(doc));
@@ -156,6 +157,21 @@ where
 			captured: vec![],
 			captured_start_offset: 0,
 		}
+	}
+
+	/// Returns the offset of the start of the line containing the specified
+	/// reader offset, or the start of the capture buffer if that comes later.
+	///
+	/// A document that begins implicitly starts at its first token, which may
+	/// be indented. Chunks must keep that indentation, since the meaning of
+	/// the rest of the document can depend on the column of its first token.
+	fn line_start_offset(&self, offset: u64) -> u64 {
+		let len = usize::try_from(offset - self.captured_start_offset).unwrap();
+		let line_start = self.captured[..len]
+			.iter()
+			.rposition(|b| matches!(b, b'\n' | b'\r'))
+			.map_or(0, |pos| pos + 1);
+		self.captured_start_offset + line_start as u64
 	}
 
 	/// Trims from the start of the capture buffer so the next chunk will begin
